@@ -402,6 +402,13 @@ def run_once(griffe, history, op, plan, template, baseline_leaks=()):
                         if "def f" not in fobj.source or not fobj.lines:
                             viols.append(("unusable/source", f"source of pkg.a.f unavailable after the checkout was removed: {fobj.source!r}"))
                     result.as_json(full=True)
+                    # "loading a package from a Git reference": what comes back is the package AT that reference, not the working tree's
+                    if op in ("load-static", "load-inspect", "load-extension", "load-relative-repo-chdir") and history != "absent-in-old":
+                        doc = result.docstring.value if result.docstring else None
+                        if doc != "Pkg v1." or (fobj is not None and "y=1" not in fobj.source) or ("a" in result.members and "gone" not in result["a"].members):
+                            viols.append((f"not-the-ref/{op}", f"{op} on '{history}' (ref v1) returned docstring {doc!r}, members of pkg.a {sorted(result['a'].members) if 'a' in result.members else None}: not the tree at v1"))
+                        if os.path.realpath(str(result.filepath)).startswith(os.path.realpath(repo) + os.sep):
+                            viols.append((f"not-the-ref/filepath-in-working-tree/{op}", f"{op} on '{history}': the returned module's file is {result.filepath}, inside the user's working tree"))
             except Exception as e:  # noqa: BLE001
                 viols.append((f"unusable/{type(e).__name__}", f"returned object unusable after clean-up: {e!r}"))
         # exception family on fault-free runs
